@@ -4,3 +4,4 @@ import Kn.Loop
 import Kn.Arr
 import Kn.Norm
 import Kn.Full
+import Kn.NStep
